@@ -296,13 +296,20 @@ impl Property for C11 {
                         }
                         if pt.3 && p_and_r.len() < received.len() && received.len() - p_and_r.len() <= 3 {
                             let d = received.len() - p_and_r.len();
-                            let x = first_diff(&p_and_r, received);
+                            let x0 = first_diff(&p_and_r, received);
                             // the lost run starts the failing chunk's range (end of input inside a
                             // character), ends right before it (the previous chunk's range covers
-                            // the held bytes) or straddles its start (held over several writes)
-                            let at_chunk_start = pt.1.is_some_and(|l| x <= l.0 && l.0 <= x + d);
-                            if at_chunk_start && p_and_r[..x] == received[..x] && p_and_r[x..] == received[x + d..] && held_prefix(enc_of(&sc.encoding), &sc.doc[x..x + d]) {
-                                return Ok(Err(Fail::known("C11.conservation", detail, "decoder_held_bytes_lost")));
+                            // the held bytes) or straddles its start (held over several writes).
+                            // Equal neighbouring bytes make the position of the gap ambiguous
+                            // (`\xa4\xa4` minus one byte): every alignment is tried.
+                            for x in x0.saturating_sub(3)..=x0 {
+                                if x + d > received.len() || p_and_r[..x] != received[..x] || p_and_r[x..] != received[x + d..] {
+                                    continue;
+                                }
+                                let at_chunk_start = pt.1.is_some_and(|l| x <= l.0 && l.0 <= x + d);
+                                if at_chunk_start && held_prefix(enc_of(&sc.encoding), &sc.doc[x..x + d]) {
+                                    return Ok(Err(Fail::known("C11.conservation", detail, "decoder_held_bytes_lost")));
+                                }
                             }
                         }
                     }
@@ -468,9 +475,11 @@ fn stream_fault_conservation(sc: &Scenario, p_and_r: &[u8], received: &[u8], st:
     // a write boundary is lost when a text handler fails on the chunk that completes it
     if got.len() < received.len() && received.len() - got.len() <= 3 && sc.handlers.iter().any(|h| matches!(h, HandlerSpec::Text { .. } if !h.is_observer())) {
         let d = received.len() - got.len();
-        let x = first_diff(&got, received);
-        if got[..x] == received[..x] && got[x..] == received[x + d..] && held_prefix(enc_of(&sc.encoding), &sc.doc[x..x + d]) {
-            return Err(Fail::known("C11.conservation", format!("{detail}; bytes {x}..{} were held by the text decoder", x + d), "decoder_held_bytes_lost"));
+        let x0 = first_diff(&got, received);
+        for x in x0.saturating_sub(3)..=x0 {
+            if x + d <= received.len() && got[..x] == received[..x] && got[x..] == received[x + d..] && held_prefix(enc_of(&sc.encoding), &sc.doc[x..x + d]) {
+                return Err(Fail::known("C11.conservation", format!("{detail}; bytes {x}..{} were held by the text decoder", x + d), "decoder_held_bytes_lost"));
+            }
         }
     }
     Err(Fail::new("C11.conservation", detail))
